@@ -173,11 +173,15 @@ impl TypeCheckable for FunctionCall {
 
 impl fmt::Display for FunctionCall {
     fn fmt(&self, f: &mut fmt::Formatter<'_>) -> fmt::Result {
-        let builtin = std_fn_to_string(self);
-        if let Some(string) = builtin {
-            return write!(f, "{}", string);
-        }
         write!(f, "{}", default_rooc_function_to_string(self))
+    }
+}
+
+impl FunctionCall {
+    /// The text of this call when it is the iterator of an iteration (`for i in ...`), the
+    /// only place where the grammar has the `a..b` spelling of `range`.
+    pub fn to_iterator_string(&self) -> String {
+        std_fn_to_string(self).unwrap_or_else(|| self.to_string())
     }
 }
 
